@@ -1,9 +1,9 @@
 package checks
 
 import (
-	"math/bits"
 	"fmt"
 	"github.com/jsightapi/jsight-api-go-library/directive"
+	"math/bits"
 	"time"
 
 	"verif/internal/doc"
